@@ -13,7 +13,7 @@ from .sim import NODE_CLASSES
 BASE = {
     "add_node": 3, "delete_node": 2, "add_edge": 4, "delete_edge": 2, "swap": 1.5,
     "update_attrs": 1, "paint": 3, "undo": 2.5, "redo": 2, "enable": 0.3, "disable": 0.3,
-    "primitive": 0, "query": 0, "issue_ids": 0, "save": 0, "export": 0, "reimport": 0, "restart": 0,
+    "primitive": 0, "query": 0, "issue_ids": 0, "save": 0, "export": 0, "reimport": 0, "restart": 0.08, "all_pairs": 0,
 }
 
 PROFILES = {
@@ -50,6 +50,8 @@ def swarm(rng: random.Random, prop: str, tier: str) -> dict:
     lo, hi = p["steps"]
     if tier == "thorough":
         hi = int(hi * 2)
+        if prop in ("C03", "C11"):
+            w["all_pairs"] = 0.4
     cfg = {
         "tier": tier,
         "weights": w,
@@ -176,6 +178,8 @@ def gen_op(rng: random.Random, cfg: dict, kind: str | None = None) -> dict:
                   added=rng.random() < 0.5, lineage=rng.random() < 0.5, score=rng.random() < 0.5,
                   pix={"o": [rng.random() for _ in range(3)], "ext": [rng.randint(1, 3) for _ in range(3)], "pat": rng.choice(["box", "scatter", "single"])},
                   pos=[rng.random() for _ in range(3)])
+    elif kind == "all_pairs":
+        op.update(cap=rng.choice([6, 8, 10]))
     elif kind == "query":
         op.update(k=rng.randrange(64))
     elif kind == "issue_ids":
